@@ -628,6 +628,10 @@ def cases(ctx):
             yield ("handler", "lifting", scheme, nl, 1)
     yield ("handler", "cellveto", "composite", (1.0, 2.0), (5, 4), 1)
     yield ("handler", "cellveto", "leaf", (1.0, 1.0), (4, 5), 1)
+    # unit prefactors in boxes with L != 1: the budgets of the probe then exceed the energy of one box traversal / L
+    # (whole traversals are counted by the C code of the bound)
+    for L in (2.5, 10.0):
+        yield ("handler", "cbound", L, 1.0, None, 1.0)
     for L, kt, kb in [(1.0, 1.0, None), (10.0, 332.0, 531.2)]:
         for cb in (1.0, -1.0):
             yield ("handler", "cbound", L, kt, kb, cb)
